@@ -818,11 +818,16 @@ func main() {
 					ok, msg := prepare(v.built.Query, q)
 					qo.res = append(qo.res, qres{v.svc, v.ver, ok})
 					if !ok {
+						// the class of the refusal is read off the version's schema and the query, not off the message
 						sig := "merged-valid-query-rejected-by-version"
-						if strings.Contains(msg, "unknown enum value") && known[sigEnum] {
+						switch why := whyRefused(v.rs, q); {
+						case why.other:
+						case why.enum && known[sigEnum]:
 							sig = sigEnum
-						} else if strings.Contains(msg, "unexpected args") && known[sigArg] {
+						case why.arg && known[sigArg]:
 							sig = sigArg
+						case why.input && known[sigInput]:
+							sig = sigInput
 						}
 						failCapped(run, idx, sig, fmt.Sprintf("service %s version %s rejects {%s}: %s", v.svc, v.ver, selsText(q), msg), c)
 					}
